@@ -263,10 +263,16 @@ func (g *Gateway) queryHandler(w http.ResponseWriter, r *http.Request) {
 				}, nil
 			}
 
-			introspectionRes := g.parseIntrospectionQuery(plan, request)
-			if introspectionRes != nil {
-				introspectionRes.index = index
-				return introspectionRes, nil
+			// the gateway answers the introspection fields and the root __typename itself,
+			// the services answer the rest of the plan
+			internalData, plan := g.resolveInternalSteps(plan, request)
+			if internalData != nil && len(plan.RootSteps) == 0 {
+				return &Result{
+					Data:   internalData,
+					Errors: nil,
+
+					index: index,
+				}, nil
 			}
 
 			queryers := g.getQueryers(planningContext, plan.RootSteps)
@@ -280,6 +286,12 @@ func (g *Gateway) queryHandler(w http.ResponseWriter, r *http.Request) {
 			})
 
 			plan.ScrubFields.Clean(result)
+
+			if result != nil {
+				for k, v := range internalData {
+					result[k] = v
+				}
+			}
 
 			return &Result{
 				Errors: gqlerrors.FormatError(err),
@@ -299,24 +311,44 @@ func (g *Gateway) queryHandler(w http.ResponseWriter, r *http.Request) {
 
 }
 
-func (g *Gateway) parseIntrospectionQuery(plan *planner.QueryPlan, request *requests.Request) *Result {
+// resolveInternalSteps answers the root steps of the gateway itself (introspection fields and the root __typename)
+// and returns the plan of the remaining steps; the given plan can be shared (cached) and is left untouched
+func (g *Gateway) resolveInternalSteps(plan *planner.QueryPlan, request *requests.Request) (map[string]interface{}, *planner.QueryPlan) {
+	var data map[string]interface{}
+	var steps []*planner.QueryPlanStep
 	for _, rs := range plan.RootSteps {
-		if rs.URL == common.InternalServiceName {
-			ir := &introspection.IntrospectionResolver{
-				Variables: request.Variables,
-			}
+		if rs.URL != common.InternalServiceName {
+			steps = append(steps, rs)
+			continue
+		}
 
-			introspectionFields := ir.ResolveIntrospectionFields(rs.SelectionSet, g.schema)
-			if introspectionFields != nil {
-				return &Result{
-					Data:   introspectionFields,
-					Errors: nil,
-				}
+		if data == nil {
+			data = make(map[string]interface{})
+		}
+
+		ir := &introspection.IntrospectionResolver{
+			Variables: request.Variables,
+		}
+
+		for k, v := range ir.ResolveIntrospectionFields(rs.SelectionSet, g.schema) {
+			data[k] = v
+		}
+
+		for _, f := range common.SelectionSetToFields(rs.SelectionSet, nil) {
+			if f.Name == common.TypenameFieldName {
+				data[f.Alias] = rs.ParentType
 			}
 		}
 	}
 
-	return nil
+	if data == nil {
+		return nil, plan
+	}
+
+	return data, &planner.QueryPlan{
+		RootSteps:   steps,
+		ScrubFields: plan.ScrubFields,
+	}
 }
 
 func (g *Gateway) getQueryers(planningCtx *planner.PlanningContext, planSteps []*planner.QueryPlanStep) map[string]queryer.Queryer {
